@@ -7,7 +7,9 @@ V=$(cd "$(dirname "$0")/.." && pwd)
 TIER=${TIER:-quick}
 git -C /repo diff --quiet || { echo "repo working tree not clean"; exit 2; }
 git -C /repo apply "$P" || { echo "patch does not apply"; exit 2; }
-trap 'git -C /repo checkout -- . ; git -C /repo clean -fdq' EXIT INT TERM
+SAVE=$(mktemp -d /tmp/verif-evsave.XXXXXX)
+cp -a "$V/evidence" "$SAVE/evidence"; [ -d "$V/replays" ] && cp -a "$V/replays" "$SAVE/replays"
+trap 'git -C /repo checkout -- . ; git -C /repo clean -fdq; rm -rf "$V/evidence" "$V/replays"; mv "$SAVE/evidence" "$V/evidence"; [ -d "$SAVE/replays" ] && mv "$SAVE/replays" "$V/replays"; rm -rf "$SAVE"' EXIT INT TERM
 if [ -n "$TESTS" ]; then
   (cd /repo && GOFLAGS=-mod=mod GOPROXY=off GOSUMDB=off go test -vet=off -count=1 ./... 2>&1 | grep -v "no test files" | sed 's/^/   [repo tests] /')
 fi
